@@ -13,22 +13,22 @@ F = lambda *p: ("f", tuple(p))
 OP = lambda op, a, b: ("op", op, a, b)
 
 SLOT_TYPES = ["u8", "i8", "u16", "i16be", "bcd8", "u32", "enum8", "inner", "dyn", "pars", "bitsT", "anon",
-              "arr_u8x2", "arr_auto", "arr_i16x2", "arr_inner", "f32", "bcd16", "u64", "senum8", "arr_bits", "i32", "zero_tail", "arr_u24x2", "arr_tri", "enumk8", "f64", "arr_par2", "anon_arr"]
+              "arr_u8x2", "arr_auto", "arr_i16x2", "arr_inner", "f32", "bcd16", "u64", "senum8", "arr_bits", "i32", "zero_tail", "arr_u24x2", "arr_tri", "enumk8", "f64", "arr_par2", "anon_arr", "u16k", "anon_skip"]
 STARTS = ["const", "off", "next", "next+1", "off+1", "overlap", "prevval", "2*off+1", "fwdval", "off-2"]
 CONDS = ["always", "tag==1", "tag==2", "off<3", "flg", "flg&&tag==1", "flg||tag==1", "present_prev", "tag==5",
          "param", "prev==7", "tag!=0&&len==1", "prev==7&&tag==1", "tag==1&&prev==7", "prev==7||tag==1",
-         "tag==1||prev==7", "fwd==7"]
+         "tag==1||prev==7", "fwd==7", "tag==-1", "tag==2^32", "false"]
 CONDALL = ["none", "tag==1", "off<3", "tag==1&req"]
 ATTRS = ["none", "req<100", "req!=0", "skip", "emit"]
 VIRTS = ["none", "x+1", "10-x", "alias", "nested_inv", "const", "bool", "max", "choice", "x+1_req", "cond_virt",
-         "alias_nested", "k+x", "x*2", "neg", "abs", "c2^31", "c2^32", "c2^63", "c-2^63", "c2^64-1", "c2^31-1", "cbool", "alias_first", "x+1_first"]
+         "alias_nested", "k+x", "x*2", "neg", "abs", "c2^31", "c2^32", "c2^63", "c-2^63", "c2^64-1", "c2^31-1", "cbool", "alias_first", "x+1_first", "alias_of_virt", "false_const", "false_x+1"]
 SREQS = ["none", "tag!=3", "len<=off"]
 PARAMS = ["none", "uint4", "int4", "enum"]
 
 DEFAULT_SIZE = {"u8": 1, "i8": 1, "u16": 2, "i16be": 2, "bcd8": 1, "u32": 4, "enum8": 1, "inner": 2, "dyn": 3, "pars": 2,
                 "bitsT": 1, "anon": 1, "arr_u8x2": 2, "arr_auto": None, "arr_i16x2": 4, "arr_inner": 4, "f32": 4,
-                "bcd16": 2, "u64": 8, "senum8": 1, "arr_bits": 2, "i32": 4, "zero_tail": 0, "arr_u24x2": 6, "arr_tri": 6, "enumk8": 1, "f64": 8, "arr_par2": 4, "anon_arr": 3}
-INT_SCALARS = {"u8", "i8", "u16", "i16be", "bcd8", "u32", "bcd16", "u64", "i32"}
+                "bcd16": 2, "u64": 8, "senum8": 1, "arr_bits": 2, "i32": 4, "zero_tail": 0, "arr_u24x2": 6, "arr_tri": 6, "enumk8": 1, "f64": 8, "arr_par2": 4, "anon_arr": 3, "u16k": 2, "anon_skip": 1}
+INT_SCALARS = {"u8", "i8", "u16", "i16be", "bcd8", "u32", "bcd16", "u64", "i32", "u16k"}
 
 
 class Program(object):
@@ -103,8 +103,10 @@ def program(ch, menu=None):
         return opts[ch.choose(len(opts), tag)]
 
     feats = {}
-    order = pick(["LittleEndian", "BigEndian"], "mod.byte_order")
-    feats["byte_order"] = order
+    order_choice = pick(["LittleEndian", "BigEndian", "none"], "mod.byte_order")
+    feats["byte_order"] = order_choice
+    # "none": the module has no $default byte_order; one-byte fields get the Null order, wider ones an explicit attribute
+    order = "LittleEndian" if order_choice == "none" else order_choice
     imp = pick(["no", "yes"], "mod.import")
     feats["import"] = imp
     PX = "im." if imp == "yes" else ""
@@ -139,6 +141,11 @@ def program(ch, menu=None):
         size_expr = C(size) if size is not None else F("len")
         if st == "u8":
             typ = ("UInt", None)
+        elif st == "u16k":
+            typ = ("UInt", None)
+            size_expr = F("k2")                         # constant only by inference: `let k2 = 2`
+            if not any(getattr(g, "name", None) == "k2" for g in fields):
+                fields.append(A.Field("k2", expr=C(2)))
         elif st == "i32":
             typ = ("Int", None)
         elif st == "i8":
@@ -174,6 +181,9 @@ def program(ch, menu=None):
             need.add("Bt")
         elif st == "anon":
             typ = ("anon", [A.Field("a%d" % i, ("UInt", None), C(0), C(4)),
+                            A.Field("g%d" % i, ("Flag",), C(7), C(1))])
+        elif st == "anon_skip":
+            typ = ("anon", [A.Field("a%d" % i, ("UInt", None), C(0), C(4), text_output="Skip"),
                             A.Field("g%d" % i, ("Flag",), C(7), C(1))])
         elif st == "arr_u8x2":
             typ = ("array", ("UInt", 8), C(2))
@@ -244,7 +254,7 @@ def program(ch, menu=None):
         elif cond_kind == "flg||tag==1":
             cond = OP("||", F("flg"), OP("==", F("tag"), C(1)))
         elif cond_kind == "present_prev":
-            cond = ("present", (prev[0],)) if prev and prev[1] != "anon" else ("present", ("tag",))
+            cond = ("present", (prev[0],)) if prev and prev[1] not in ("anon", "anon_arr", "anon_skip") else ("present", ("tag",))
         elif cond_kind == "tag==5":
             cond = OP("==", F("tag"), C(5))
         elif cond_kind == "param":
@@ -270,6 +280,12 @@ def program(ch, menu=None):
             tc = OP("==", F("tag"), C(1))
             op2 = "&&" if "&&" in cond_kind else "||"
             cond = OP(op2, pc, tc) if cond_kind.startswith("prev") else OP(op2, tc, pc)
+        elif cond_kind == "tag==-1":
+            cond = OP("==", F("tag"), C(-1))            # a constant the field can never equal (below its range)
+        elif cond_kind == "tag==2^32":
+            cond = OP("==", F("tag"), C(2 ** 32))       # ... and above it
+        elif cond_kind == "false":
+            cond = ("b", False)
         elif cond_kind == "fwd==7":
             # forward reference: the condition reads a field declared later in the source
             cond = OP("==", F("f%d" % (i + 1)), C(7)) if i + 1 < nslots else OP("==", F("tag"), C(1))
@@ -290,8 +306,14 @@ def program(ch, menu=None):
             text_output = "Skip"
         elif attr_kind == "emit":
             text_output = "Emit"
-        if st == "anon":
-            fld = A.Field(None, typ, start, size_expr, cond=cond)
+        if order_choice == "none" and bo is None and st not in ("inner", "dyn", "pars", "arr_inner", "arr_tri", "arr_par2", "zero_tail"):
+            one_byte = st in ("u8", "i8", "bcd8", "enum8", "senum8", "enumk8", "bitsT", "anon", "anon_skip", "arr_u8x2", "arr_auto", "arr_bits")
+            if not one_byte:
+                bo = order
+        if st in ("anon", "anon_arr", "anon_skip"):
+            fld = A.Field(None, typ, start, size_expr, cond=cond, byte_order=bo if st == "anon_arr" else None)
+            if text_output and st == "anon":
+                typ[1][0].text_output = text_output      # the attribute on a member of the anonymous bits
         else:
             fld = A.Field(name, typ, start, size_expr, cond=cond, requires=req, byte_order=bo, text_output=text_output)
         fields.append(fld)
@@ -343,6 +365,13 @@ def program(ch, menu=None):
         v = A.Field("v", expr=("neg", X))
     elif vk == "abs":
         v = A.Field("v", expr=("?:", OP("<", X, C(0)), ("neg", X), X))
+    elif vk == "alias_of_virt":
+        fields.append(A.Field("vb", expr=OP("+", X, C(10))))
+        v = A.Field("v", expr=F("vb"))                  # an alias of a computed virtual field
+    elif vk == "false_const":
+        v = A.Field("v", expr=C(7), cond=("b", False))  # a constant under a constant-false condition
+    elif vk == "false_x+1":
+        v = A.Field("v", expr=OP("+", X, C(1)), cond=("b", False))
     elif vk == "alias_first":
         v = A.Field("v", expr=X)
     elif vk == "x+1_first":
@@ -382,10 +411,14 @@ def program(ch, menu=None):
     if imp == "yes":
         other = "BigEndian" if order == "LittleEndian" else "LittleEndian"
         imported = A.Module(other, None, enums, structs, name="imp.emb")
-        module = A.Module(order, None, [], [main], imports=[("im", imported)])
+        module = A.Module(None if order_choice == "none" else order, None, [], [main], imports=[("im", imported)])
     else:
+        if order_choice == "none":
+            for st_ in structs:
+                if st_.kind == "struct":
+                    st_.byte_order = order      # helper types keep an order of their own ($default on the struct)
         structs.append(main)
-        module = A.Module(order, None, enums, structs)
+        module = A.Module(None if order_choice == "none" else order, None, enums, structs)
     # ---- parameter tuples
     tuples = {"none": [()], "uint4": [(0,), (1,), (2,), (15,)], "int4": [(-8,), (-1,), (0,), (1,), (7,)],
               "enum": [(0,), (1,), (3,)]}[ptype]
